@@ -50,9 +50,10 @@ def run(ctx):
     # spec -> impl: the partition enumerated by TLC
     classes = ctx.pick([0, 1, 2, 3, 4, 23, 24, 25, 26, 32, 33], [0, 1, 2, 3, 4, 5, 23, 24, 25, 26, 31, 32, 33, 34, 64, 97])
     k = ctx.pick(2, 4)
-    ctx.scope.update({"classes_words": classes, "variants": k})
+    big = ctx.pick([192, 193, 194], [191, 192, 193, 194, 195, 200, 256])
+    ctx.scope.update({"classes_words": classes, "toom3_classes_words": big, "variants": k})
     cfg = fw.write_cfg(ctx.path("Gen_C01.cfg"), invariants=["Emit"],
-                       constants={"Classes": fw.tla_set(classes), "K": k, "Seed": ctx.seed % 1000})
+                       constants={"Classes": fw.tla_set(classes), "BigClasses": fw.tla_set(big), "K": k, "Seed": ctx.seed % 1000})
     cases, ncases = ctx.gen("gen", "C01", "Gen_C01.tla", cfg)
     ctx.append_witnesses(cases)
     tr1 = ctx.drive(drive, ["--cases", cases, "--n", "0"], "trace-gen.ndjson")
@@ -66,7 +67,7 @@ def run(ctx):
              "(op, types, operands, outcomes); non-trivial = no zero operand",
         explanation="IntAddAlg (add_ops.rs at word level, all ownership variants) model-checked exhaustively; TLC enumerates op x type pair x size-class pair x pattern (Gen_C01) and validates every recorded call "
                     "against BigInt (Trace_C01).",
-        required_cover=["op:add", "op:sub", "op:mul", "op:sqr", "op:cubic", "op:pow", "mul:schoolbook", "mul:karatsuba",
+        required_cover=["op:add", "op:sub", "op:mul", "op:sqr", "op:cubic", "op:pow", "mul:schoolbook", "mul:karatsuba", "mul:toom3",
                         "carry-grows", "cancel-shrinks", "heap-to-inline", "panic", "primitive-forms",
                         "types:UU", "types:II", "types:UI", "types:IU"])
 
